@@ -81,7 +81,8 @@ static ASMJIT_NOINLINE Error ArenaVector_reserve_with_byte_size(ArenaVectorBase&
     return make_error(Error::kOutOfMemory);
   }
 
-  size_t allocated_capacity = item_count_from_byte_size(allocated_size, item_size);
+  // Capacity is stored as `uint32_t` - the expanded byte size can describe more items than that, never report a truncated count.
+  size_t allocated_capacity = Support::min<size_t>(item_count_from_byte_size(allocated_size, item_size), size_t(0xFFFFFFFFu));
 
   void* old_data = self._data;
   uint32_t size = self._size;
